@@ -2,6 +2,7 @@
    own-term entries on the quorum index.  The cluster-level statement is checked by the
    monitors at every leadership change. *)
 From Coq Require Import List NArith.
+From RaftV Require LogMatching Safety SafetyEx.
 From RaftV Require Import Base Types Quorum Progress Tracker Storage Log Raft RawNode QuorumProofs RaftMono RaftRouting NodeProps PreVoteProofs LocalProofs FlowProofs LogProofs ConfProofs.
 Import ListNotations.
 Open Scope N_scope.
@@ -29,3 +30,37 @@ Theorem C04_commit_own_term_on_quorum : forall st r r' b,
 Proof. exact maybe_commit_spec. Qed.
 Print Assumptions C04_commit_own_term_on_quorum.
 
+
+
+(* ---------- protocol level (Spec/Safety.v) ---------- *)
+
+(* Leader Completeness for every reachable state of the protocol of Spec/Safety.v (see C01.v for
+   its rules): whenever a candidate of term t holds the votes of a majority and no leadership of
+   t exists yet (the moment it becomes leader), its log already agrees, through position i, with
+   the log of every earlier leadership t0 < t that committed position i. *)
+Theorem C04_new_leader_holds_committed : forall vs s c t i e t0,
+  Safety.sreach vs s ->
+  Safety.tm s c = t -> LogMatching.active (Safety.sg s) t = false -> Safety.majority vs (Safety.voted_for s t c) ->
+  In (i, e, t0) (Safety.commits s) -> (t0 < t)%N ->
+  LogMatching.agree (S i) (Safety.nlog s c) (Safety.L s t0).
+Proof.
+  intros vs s c t i e t0 R. exact (Safety.cand_has_committed vs s c t i e t0 (Safety.sreach_sinv vs s R)).
+Qed.
+Print Assumptions C04_new_leader_holds_committed.
+
+(* ... and every later leadership's log keeps holding it, at the same position *)
+Theorem C04_leader_completeness_protocol : forall vs s i e t,
+  Safety.sreach vs s -> In (i, e, t) (Safety.commits s) ->
+  forall t' j x, LogMatching.active (Safety.sg s) t' = true -> (t < t')%N -> (j <= i)%nat ->
+    nth_error (Safety.L s t) j = Some x -> nth_error (Safety.L s t') j = Some x.
+Proof.
+  intros vs s i e t R. exact (Safety.leader_completeness vs s i e t (Safety.sreach_sinv vs s R)).
+Qed.
+Print Assumptions C04_leader_completeness_protocol.
+
+(* no leader overwrites or truncates such an entry on a follower: a node whose log agrees with a
+   committing leadership through j still does after any step *)
+Theorem C04_followers_keep_committed : forall vs s s' m j t,
+  Safety.SInv vs s -> Safety.sstep vs s s' -> Safety.can_learn s m j t -> Safety.can_learn s' m j t.
+Proof. exact Safety.can_learn_stable. Qed.
+Print Assumptions C04_followers_keep_committed.
